@@ -8,6 +8,7 @@ import (
 	"strconv"
 	"strings"
 	"testing"
+	"time"
 
 	"pgregory.net/rapid"
 
@@ -39,6 +40,7 @@ type C17Batch struct {
 
 type C17Case struct {
 	Kind    string     `json:"kind"`   // "keys" (SCAN), "hash" (HSCAN), "set" (SSCAN)
+	Salt    int        `json:"salt"`   // element names are s<i>.<salt>, e<i>.<salt>, t<j>.<salt>
 	Stable  int        `json:"stable"` // elements s0.. never touched
 	Vol0    int        `json:"vol0"`   // volatile elements e0.. present before the first batch
 	Count   int        `json:"count"`  // COUNT option, 0 = not given
@@ -49,27 +51,39 @@ type C17Case struct {
 	Batches []C17Batch `json:"batches"`
 }
 
+// The emulator hashes names with SipHash under a fixed (zero) key, keeps one item per bucket and
+// doubles the table until two colliding names separate, so the table size is a deterministic function
+// of the names that are live together, and about n^2 buckets on average. Every name carries the
+// case's salt ("e17.866") so that different cases see different table geometries. With arbitrary salts
+// about one name universe in seven contains a pair that agrees in more than 22 low hash bits, i.e. a
+// table of 2^24+ buckets (>= 128 MB; unsalted s99/s151 agree in 25 bits: 512 MB for 152 elements). That
+// is a resource matter outside C17, so the salts are drawn from a list for which a scratch program
+// found no pair agreeing in more than 20 bits among s0..s199, e0..e3999, t0..t7 (tables <= 2^21
+// buckets). If the hash function changes the list is merely no longer special.
+var c17Salts = []int{75, 250, 387, 648, 681, 709, 866, 874, 1005, 1077, 1114, 1240, 1241, 1344, 1455, 1465,
+	1516, 1554, 1561, 1564, 1578, 1678, 1686, 1700, 1907, 1967, 2017, 2094, 2117, 2138, 2346, 2623,
+	2966, 3057, 3192, 3311, 3316, 3349, 3350, 3360, 3372, 3710, 3817, 3850, 3941, 4098, 4122, 4279,
+	4288, 4289, 4347, 4434, 4581, 4643, 4732, 4739, 4857, 4895, 4982, 4999, 5047, 5068, 5069, 5071}
+
 const (
 	c17MaxLive  = 400   // the emulator's table is ~n^2 buckets; keep it below a few MB
+	c17Universe = 4000  // volatile names are e0..e3999; the counter wraps and re-uses names that are not live
 	c17HardCap  = 20000 // calls after which a running iteration is reported as non-terminating
 	c17ChunkLen = 40    // elements per multi-element command
 )
 
-var c17Counts = []int{0, 1, 1, 1, 2, 2, 3, 3, 7, 10, 100, 1000}
-var c17Patterns = []string{"", "", "", "*", "e1*", "s*", "s1*", "*7", "?[0-4]*", "[es]*5", "zz*"}
+var c17Counts = []int{0, 0, 1, 1, 1, 1, 1, 2, 2, 2, 3, 3, 7, 10, 100, 1000}
+var c17Patterns = []string{"", "", "", "", "*", "*", "e1*", "s*", "s*", "s1*", "*7.*", "?[0-4]*", "[es]*5.*", "zz*"}
 var c17Types = []string{"string", "hash", "set", "list", "zset"}
 var c17KeyTypes = []string{"string", "hash", "set", "list"}
 
-func c17Batch(t *rapid.T, small bool) C17Batch {
+// regimes: 0 "tiny" and 1 "small" keep the table small enough that the emulator's shrink threshold
+// (removals > buckets/2, table ~ n^2 buckets) is reached with a few hundred / thousand removals, so
+// that the table oscillates while the iteration is under way; 2 "large" crosses many doublings.
+func c17Batch(t *rapid.T, regime int) C17Batch {
 	b := C17Batch{}
-	maxIns := 300
-	if small {
-		maxIns = 40
-	}
-	switch rapid.IntRange(0, 3).Draw(t, "insKind") {
-	case 0:
-		b.Ins = 0
-	default:
+	maxIns := [3]int{12, 40, 300}[regime]
+	if rapid.IntRange(0, 3).Draw(t, "insKind") != 0 {
 		b.Ins = rapid.IntRange(0, maxIns).Draw(t, "ins")
 	}
 	switch rapid.IntRange(0, 4).Draw(t, "delKind") {
@@ -85,10 +99,13 @@ func c17Batch(t *rapid.T, small bool) C17Batch {
 	if rapid.IntRange(0, 2).Draw(t, "reinsKind") == 0 {
 		b.Reins = rapid.IntRange(0, 30).Draw(t, "reins")
 	}
-	if small {
-		b.ChurnRem = pick(t, "churn", 0, 0, 20, 80, 300, 1200, 2500, 6000)
-	} else {
-		b.ChurnRem = pick(t, "churn", 0, 0, 0, 0, 100, 1000, 5000)
+	switch regime {
+	case 0:
+		b.ChurnRem = pick(t, "churn", 0, 0, 10, 40, 100, 300, 700, 1500)
+	case 1:
+		b.ChurnRem = pick(t, "churn", 0, 0, 20, 80, 300, 1200, 2500, 5000)
+	default:
+		b.ChurnRem = pick(t, "churn", 0, 0, 0, 0, 100, 1000, 4000)
 	}
 	b.ChurnW = rapid.IntRange(1, 8).Draw(t, "churnW")
 	b.Rewrite = rapid.IntRange(0, 3).Draw(t, "rewrite") == 0
@@ -98,29 +115,44 @@ func c17Batch(t *rapid.T, small bool) C17Batch {
 func c17Gen(t *rapid.T) C17Case {
 	c := C17Case{}
 	c.Kind = pick(t, "kind", "keys", "hash", "set")
-	// two regimes: "small" keeps the table small enough that the emulator's shrink threshold
-	// (removals > buckets/2) is reachable with a few thousand removals; "large" crosses many doublings
-	small := rapid.Bool().Draw(t, "small")
-	if small {
-		c.Stable = rapid.IntRange(0, 32).Draw(t, "stable")
+	c.Salt = pick(t, "salt", c17Salts...)
+	regime := rapid.IntRange(0, 2).Draw(t, "regime")
+	minStable := 8
+	if rapid.IntRange(0, 7).Draw(t, "fewStable") == 0 {
+		minStable = 0 // includes the empty collection and a hash/set that disappears when emptied
+	}
+	switch regime {
+	case 0:
+		c.Stable = rapid.IntRange(minStable, 20).Draw(t, "stable")
+		c.Vol0 = rapid.IntRange(0, 16).Draw(t, "vol0")
+	case 1:
+		c.Stable = rapid.IntRange(minStable, 40).Draw(t, "stable")
 		c.Vol0 = rapid.IntRange(0, 60).Draw(t, "vol0")
-	} else {
-		c.Stable = rapid.IntRange(0, 200).Draw(t, "stable")
+	default:
+		c.Stable = rapid.IntRange(minStable, 200).Draw(t, "stable")
 		c.Vol0 = rapid.IntRange(0, c17MaxLive-c.Stable).Draw(t, "vol0")
 	}
 	c.Count = pick(t, "count", c17Counts...)
 	c.Match = pick(t, "match", c17Patterns...)
-	if c.Kind == "keys" && rapid.IntRange(0, 2).Draw(t, "typed") == 0 {
+	if c.Kind == "keys" && rapid.IntRange(0, 3).Draw(t, "typed") == 0 {
 		c.Type = pick(t, "type", c17Types...)
+	}
+	// the emulator counts COUNT in matching elements, so with a selective filter a whole table is
+	// walked by one call unless COUNT is tiny; favour tiny COUNTs there to keep mutations interleaved
+	if (c.Type != "" || (c.Match != "" && c.Match != "*")) && rapid.IntRange(0, 3).Draw(t, "tinyCount") != 0 {
+		c.Count = pick(t, "count2", 1, 1, 1, 2, 3)
 	}
 	c.Perm = rapid.IntRange(0, 5).Draw(t, "perm")
 	np := pick(t, "npre", 0, 0, 1, 2, 3)
 	for i := 0; i < np; i++ {
-		c.Pre = append(c.Pre, c17Batch(t, small))
+		c.Pre = append(c.Pre, c17Batch(t, regime))
 	}
-	nb := rapid.IntRange(0, 16).Draw(t, "nbatches")
+	nb := rapid.IntRange(0, 20).Draw(t, "nbatches")
+	if nb < 4 && rapid.Bool().Draw(t, "moreBatches") {
+		nb += 6
+	}
 	for i := 0; i < nb; i++ {
-		c.Batches = append(c.Batches, c17Batch(t, small))
+		c.Batches = append(c.Batches, c17Batch(t, regime))
 	}
 	// TEMP-EXCLUDE hooks would go here (none needed so far)
 	return c
@@ -136,7 +168,16 @@ type c17Pipe struct {
 	buf  []byte
 	cmds []string
 	want []int64 // expected integer reply, -1 = "+OK", -2 = any integer
+	rbuf []byte
+	tmp  []byte
 	err  error
+}
+
+func c17Clip(b []byte) []byte {
+	if len(b) > 120 {
+		return b[:120]
+	}
+	return b
 }
 
 func (p *c17Pipe) add(want int64, argv ...string) {
@@ -166,12 +207,34 @@ func (p *c17Pipe) flush() error {
 		p.err = fmt.Errorf("mutation pipeline: write failed: %v", err)
 		return p.err
 	}
-	for i := range p.cmds {
-		v, err := p.conn.Read(kit.ReplyTimeout)
+	// replies are read with a private buffer (kit.Conn.Read allocates 64 KB per reply, which dominates
+	// the cost of a case with thousands of mutations); the connection's own buffer is empty here
+	// because every earlier command was a strict request/reply exchange
+	rb := p.rbuf[:0]
+	pos, got := 0, 0
+	deadline := time.Now().Add(kit.ReplyTimeout)
+	for got < len(p.cmds) {
+		v, n, err := kit.Parse(rb[pos:], 2)
+		if err == kit.ErrIncomplete {
+			if p.tmp == nil {
+				p.tmp = make([]byte, 32*1024)
+			}
+			p.conn.C.SetReadDeadline(deadline)
+			m, rerr := p.conn.C.Read(p.tmp)
+			rb = append(rb, p.tmp[:m]...)
+			if m == 0 && rerr != nil {
+				p.err = fmt.Errorf("mutation %q: no reply: %v", p.cmds[got], rerr)
+				return p.err
+			}
+			continue
+		}
 		if err != nil {
-			p.err = fmt.Errorf("mutation %q: no well-formed reply: %v", p.cmds[i], err)
+			p.err = fmt.Errorf("mutation %q: malformed reply: %v; bytes=%q", p.cmds[got], err, c17Clip(rb[pos:]))
 			return p.err
 		}
+		pos += n
+		i := got
+		got++
 		ok := false
 		if p.want[i] == -2 {
 			ok = v.K == kit.KInt
@@ -185,6 +248,11 @@ func (p *c17Pipe) flush() error {
 			return p.err
 		}
 	}
+	if pos != len(rb) {
+		p.err = fmt.Errorf("%d surplus reply bytes after %d mutations: %q", len(rb)-pos, len(p.cmds), c17Clip(rb[pos:]))
+		return p.err
+	}
+	p.rbuf = rb[:0]
 	p.buf = p.buf[:0]
 	p.cmds = p.cmds[:0]
 	p.want = p.want[:0]
@@ -194,8 +262,9 @@ func (p *c17Pipe) flush() error {
 // ---- the harness-side view of the collection -----------------------------------------------------------
 
 type c17World struct {
-	kind string
-	p    *c17Pipe
+	kind   string
+	suffix string
+	p      *c17Pipe
 
 	live  map[string]string // name -> current value (hash kind; "" otherwise)
 	vol   []string          // live volatile names, insertion order
@@ -218,9 +287,14 @@ const (
 	c17SetKey  = "S"
 )
 
+// c17TypeOf: the type of the key with this name (keys kind) is a function of its prefix and index.
 func c17TypeOf(name string) string {
-	n, _ := strconv.Atoi(name[1:])
+	n, _ := strconv.Atoi(name[1:strings.IndexByte(name, '.')])
 	return c17KeyTypes[(n+int(name[0]))%4]
+}
+
+func (w *c17World) name(prefix string, i int) string {
+	return prefix + strconv.Itoa(i) + w.suffix
 }
 
 func (w *c17World) value(name string) string {
@@ -367,7 +441,7 @@ func (w *c17World) del(names []string) {
 func (w *c17World) stableNames(n int) []string {
 	out := make([]string, n)
 	for i := range out {
-		out[i] = "s" + strconv.Itoa(i)
+		out[i] = w.name("s", i)
 	}
 	return out
 }
@@ -379,10 +453,14 @@ func (w *c17World) insertFresh(n int) {
 	if n <= 0 {
 		return
 	}
-	names := make([]string, n)
-	for i := range names {
-		names[i] = "e" + strconv.Itoa(w.nextE)
+	names := make([]string, 0, n)
+	for tries := 0; len(names) < n && tries < 2*c17Universe; tries++ {
+		name := w.name("e", w.nextE%c17Universe)
 		w.nextE++
+		if _, isLive := w.live[name]; !isLive {
+			names = append(names, name)
+			w.live[name] = "" // reserved; put() sets the value
+		}
 	}
 	w.put(names, false)
 	w.vol = append(w.vol, names...)
@@ -429,14 +507,18 @@ func (w *c17World) reinsert(n int) {
 	if room := c17MaxLive - len(w.live); n > room {
 		n = room
 	}
-	if n > len(w.dead) {
-		n = len(w.dead)
+	var names []string
+	for len(names) < n && len(w.dead) > 0 {
+		name := w.dead[0]
+		w.dead = w.dead[1:]
+		if _, isLive := w.live[name]; !isLive { // the wrapped name counter may have re-used it already
+			names = append(names, name)
+			w.live[name] = ""
+		}
 	}
-	if n <= 0 {
+	if len(names) == 0 {
 		return
 	}
-	names := append([]string(nil), w.dead[:n]...)
-	w.dead = w.dead[n:]
 	w.put(names, false)
 	w.vol = append(w.vol, names...)
 }
@@ -450,7 +532,7 @@ func (w *c17World) churn(removals, width int) {
 	}
 	pool := make([]string, width)
 	for i := range pool {
-		pool[i] = "t" + strconv.Itoa(i)
+		pool[i] = w.name("t", i)
 	}
 	for done := 0; done < removals; done += width {
 		w.put(pool, false)
@@ -589,7 +671,7 @@ func c17Run(c C17Case, st *kit.Stats) error {
 	emu := kit.StartEmu("")
 	defer emu.Stop()
 	conn := emu.Dial()
-	w := &c17World{kind: c.Kind, p: &c17Pipe{conn: conn}, live: map[string]string{}}
+	w := &c17World{kind: c.Kind, suffix: "." + strconv.Itoa(c.Salt), p: &c17Pipe{conn: conn}, live: map[string]string{}}
 
 	// build the collection and its prior history
 	w.put(w.stableNames(c.Stable), false)
